@@ -4,7 +4,7 @@
    idempotence of formatting for every well-formed F0 document. *)
 From Coq Require Import List Ascii String Bool Arith.
 Import ListNotations.
-From F0 Require Import F0s Specs P1 P2 P3g P5 P6 P7 P8 P9 P10 P11 Canon P12 P13 Canonize P14 P15 P16a P16 P17 P18 P19.
+From F0 Require Import F0s Specs P1 P2 P3g P5 P6 P7 P8 P9 P10 P11 Canon P12 P13 Canonize P14 P15 P16a P16 P17 P18 P19 P20.
 
 Theorem C06_fixed_point : forall f, wf_file f ->
   roundtrip f = ftext (canon_file f) /\ roundtrip (canon_file f) = ftext (canon_file f).
@@ -20,3 +20,22 @@ Print Assumptions C06_checked.
 Theorem C06_domain_closed : forall f, wf_file f -> wf_file (canon_file f).
 Proof. exact canon_file_wf. Qed.
 Print Assumptions C06_domain_closed.
+
+(* end to end over the external parser: for ANY function ts_parse satisfying the two hypotheses the render
+   correspondence validates on every run (tiling; the canonical form of a parsed tree, printed, parses back to that canonical form — checked on every case by re-parsing the implementation's output with tree-sitter), the rebuilt
+   text parses and rebuilding it again changes nothing *)
+Theorem C06_source : forall ts_parse : str -> option cfile,
+  (forall src f, ts_parse src = Some f -> ftext f = src) ->
+  (forall src f, ts_parse src = Some f -> wf_file f -> ts_parse (ftext (canon_file f)) = Some (canon_file f)) ->
+  forall src f, ts_parse src = Some f -> wf_file f ->
+  exists f', ts_parse (roundtrip f) = Some f' /\ roundtrip f' = roundtrip f.
+Proof. exact (fun ts _ Hstable => P20.C06_source ts Hstable). Qed.
+Print Assumptions C06_source.
+
+(* the hypotheses are jointly satisfiable by a parser that accepts a non-trivial document *)
+Example C06_source_nonvacuous :
+  (forall src f, toy_parse src = Some f -> ftext f = src) /\
+  (forall src f, toy_parse src = Some f -> wf_file f -> toy_parse (ftext (canon_file f)) = Some (canon_file f)) /\
+  toy_parse (ftext (canon_file demo)) = Some (canon_file demo) /\ wf_file (canon_file demo).
+Proof. exact (conj toy_tiling (conj toy_stable toy_accepts)). Qed.
+Print Assumptions C06_source_nonvacuous.
